@@ -72,6 +72,19 @@ class Node:
         self.next = None
 
 
+class EmptyBox:
+    def __init__(self):
+        self.items = []
+
+    def __len__(self):
+        return len(self.items)
+
+
+class Never:
+    def __bool__(self):
+        return False
+
+
 class Trap:
     def __init__(self):
         self._Trapdoor = 'not private'
@@ -172,7 +185,7 @@ def container(rng):
 def obj(rng):
     return rng.choice(['Plain()', 'Plain(%d)' % rng.randint(2, 9), 'Priv()', 'Child()', 'Slotted()',
                        "WithStr('w')", 'Outer.Inner()', 'Outer()', 'MyList([1, 2])', "MyDict(a=1)",
-                       'make_local_class()', 'B.LibObj()', 'Node(1)', 'object()', 'Trap()'])
+                       'make_local_class()', 'B.LibObj()', 'Node(1)', 'object()', 'Trap()', 'EmptyBox()', 'Never()'])
 
 
 def exc(rng):
@@ -203,7 +216,10 @@ class Body:
 
     def fresh(self):
         self.k += 1
-        return '%s%d' % (self.prefix, self.k)
+        r = self.rng.random()
+        # now and then a protected / private looking local (inside a class body the compiler mangles `__x`)
+        lead = '_' if r < 0.06 else '__' if r < 0.1 else ''
+        return '%s%s%d' % (lead, self.prefix, self.k)
 
     def emit(self, text, cand=True):
         self.lines.append((self.ind + text, cand))
@@ -260,7 +276,7 @@ class Body:
             v = 'shadow'
         elif r < 0.96 and self.names:
             d = rng.choice(self.names)
-            if d != 'shadow' and not d.startswith('r') and not d.startswith('me'):
+            if d != 'shadow' and not d.startswith('r') and not d.startswith('me') and not d.startswith('__'):
                 self.emit('del %s' % d)
                 self.names.remove(d)
             return
@@ -327,7 +343,7 @@ def gen_program(rng, depth=None, nlocals=None):
             base = 8
             params = ['a%d' % i, 'cap%d' % i]
         elif k == 'method':
-            parent = rng.choice(['', '(Priv)', '(Child)', '(Plain)'])
+            parent = rng.choice(['', '', '(Priv)', '(Child)', '(Plain)', '(EmptyBox)', '(Never)', '(MyList)'])
             head = ['class C%d%s:' % (i, parent), '    def m%d(self, %s):' % (i, p)]
             base = 8
             params = ['self', p]
